@@ -444,6 +444,8 @@ impl<'l> Iterator for Parser<'l>
 					Err(e) =>
 					{
 						self.0.clear();
+						// tokens that were only looked ahead at belong to the rejected statement
+						while self.0.next().is_some() {}
 						Some(Err(e))
 					},
 				}
